@@ -8,4 +8,5 @@ INVARIANT TypeOK
 INVARIANT PermInv
 INVARIANT PermBijective
 INVARIANT PermCubeId
+INVARIANT TensorPermOK
 CHECK_DEADLOCK FALSE
